@@ -98,6 +98,7 @@ def run_array(env, res, case, want_readme=False, census=False):
     try:
         path = d / 'a.darr'
         h = D.asarray(path, model, accessmode='r+', chunklen=case['chunklen'])
+        mdmodel = {}
         lastx = 'none'
         nsteps = 0
         import contextlib
@@ -136,13 +137,25 @@ def run_array(env, res, case, want_readme=False, census=False):
                     D.Array(path, accessmode='r+')[i] = row
                     model[i] = row
                 elif step == 'x:md':
-                    D.Array(path, accessmode='r+').metadata['k'] = rng.randint(0, 9)
+                    v_ = rng.randint(0, 9)
+                    D.Array(path, accessmode='r+').metadata['kx'] = v_
+                    mdmodel['kx'] = v_
                 elif step == 'x:md_clear':
                     md2 = D.Array(path, accessmode='r+').metadata
                     for key in list(md2.keys()):
                         md2.pop(key)
+                    mdmodel.clear()
                 elif step == 'h:md':
-                    h.metadata['k'] = rng.randint(0, 3)
+                    v_ = rng.randint(0, 3)
+                    h.metadata['kh'] = v_
+                    mdmodel['kh'] = v_
+                elif step == 'h:md_pop':
+                    if 'kx' in mdmodel:
+                        h.metadata.pop('kx')
+                        del mdmodel['kx']
+                    else:
+                        h.metadata.update({'kh2': [1, 2]})
+                        mdmodel['kh2'] = [1, 2]
                 elif step == 'x:recreate_samesize':
                     cands = [t for t in SAMESIZE[model.dtype.itemsize] if np.dtype(t).kind != model.dtype.kind
                              or np.dtype(t).itemsize != model.dtype.itemsize] or SAMESIZE[model.dtype.itemsize]
@@ -155,10 +168,12 @@ def run_array(env, res, case, want_readme=False, census=False):
                         shape = (nitems,)
                     model = gens.random_values(rng, newdt, shape)
                     D.asarray(path, model, overwrite=True, accessmode='r+')
+                    mdmodel.clear()
                 elif step == 'x:recreate_other':
                     newdt = gens.dt(rng.choice(gens.T13), rng.choice(gens.BO))
                     model = gens.random_values(rng, newdt, rng.choice(SHAPES))
                     D.asarray(path, model, overwrite=True, accessmode='r+', chunklen=rng.choice([1, 3, 100]))
+                    mdmodel.clear()
                 elif step == 'h:read':
                     res.count('mon.stale_reads')
                     for idx in (slice(None), Ellipsis, slice(1, None, 2), slice(None, None, -1), [0] if n else slice(0, 0)):
@@ -232,6 +247,17 @@ def run_array(env, res, case, want_readme=False, census=False):
             if live is not None:
                 res.count('mon.stale_live_after_resize')
                 if not compare_handle(res, 'live', live, model, tag):
+                    return
+            # metadata changed through either handle: a fresh handle and the file show the union of what both did
+            if step in ('x:md', 'x:md_clear', 'h:md', 'h:md_pop', 'x:recreate_samesize', 'x:recreate_other'):
+                res.count('mon.stale_metadata')
+                try:
+                    gotmd = dict(D.Array(path).metadata)
+                except Exception as e:
+                    gotmd = f'{type(e).__name__}: {e}'
+                if gotmd != mdmodel or (path / 'metadata.json').exists() != bool(mdmodel):
+                    res.fail(f'{tag}:metadata-differs', f'after {step}: a fresh handle reads metadata {gotmd!r}, expected {mdmodel!r} '
+                                                        f'(metadata.json exists: {(path / "metadata.json").exists()})', step=step)
                     return
             if census:
                 res.count('mon.fdmap')
